@@ -36,6 +36,18 @@ fn tuples(widths: &[usize]) -> Vec<Vec<u64>> {
             t[i] = v;
             out.push(t);
         }
+        // values that mean something: BCD version numbers, the EDGE32 boundaries, well-known addresses
+        let mut dict: Vec<u64> = vec![0x0100, 0x0101, 0x0102, 0x0200, 0x0300, 0xB8000, 0xA0000, 0x10_0000, 0x80];
+        dict.extend(EDGE32.iter().map(|&e| e as u64));
+        for v in dict {
+            if v <= max {
+                let mut t = base.clone();
+                t[i] = v;
+                if !out.contains(&t) {
+                    out.push(t);
+                }
+            }
+        }
         for j in 0..w {
             for &p in &PERT {
                 let mut t = base.clone();
@@ -688,7 +700,7 @@ fn boxed(ctx: &mut Ctx) {
 
 fn run(ctx: &mut Ctx) {
     let arena = Arena::new(1);
-    ctx.bound("sized", "every sized constructor of both crates: a marker argument tuple, {0,1,MAX,MAX-1,0x80..} per argument, every single-byte perturbation of every argument with {00,01,02,04,08,10,20,40,80,FF}; enumerated arguments over all variants; as_bytes() at every address residue the type's alignment permits");
+    ctx.bound("sized", "every sized constructor of both crates: a marker argument tuple, {0,1,MAX,MAX-1,0x80..} per argument, a dictionary per argument (BCD versions 1.0..3.0, 0xB8000, 0xA0000, 1 MiB, every EDGE32 value that fits), every single-byte perturbation of every argument with {00,01,02,04,08,10,20,40,80,FF}; enumerated arguments over all variants; as_bytes() at every address residue the type's alignment permits");
     ctx.bound("boxed_elf_arguments", "ElfSectionsTag::new: number 0/1/3/0xFFFF x entry size 40/64/0/48 x string-table index over EDGE32 + {0xFF00, 0xFFF1, 0xFFF2, 0xFF1F, 40, 64} x 11 section-data lengths (0..=192 bytes)");
     ctx.bound("boxed_request_lists", "InformationRequestHeaderTag::new: every list of length 0..=4 over the ids {1, 6, 21, 0, 0x1337, 17} (repeated, unordered, specified and custom ids), both flags");
     ctx.bound("boxed_relational", "heap constructors with related contents: every text of length <= 4 over {a, NUL, e-acute} for the three string kinds (interior, leading, repeated, trailing NULs); every sequence of 1..=3 (thorough: 4) memory areas / EFI descriptors over 8 ranges that are equal, contiguous, overlapping, empty, entirely zero, of different type or end just below 2^64");
